@@ -62,7 +62,13 @@ class FakeWriter:
         return self.closed
 
     async def wait_closed(self):
+        # asyncio semantics: when the connection was lost with an exception (reset by peer, broken pipe), the transport hands
+        # that exception to the close waiter and StreamWriter.wait_closed() re-raises it
+        if self.lost_exc is not None:
+            raise self.lost_exc
         return None
+
+    lost_exc = None
 
 
 class FakeServer:
@@ -195,14 +201,18 @@ class Driver:
         self.conns[addr].reader.feed_eof()
 
     def read_error(self, addr, exc=None):
-        self.conns[addr].reader.set_exception(exc or ConnectionResetError("reset by peer"))
+        exc = exc or ConnectionResetError("reset by peer")
+        self.conns[addr].writer.lost_exc = exc
+        self.conns[addr].reader.set_exception(exc)
 
     def write_error(self, addr, exc=None, on="write"):
         w = self.conns[addr].writer
+        exc = exc or ConnectionResetError("broken pipe")
+        w.lost_exc = exc
         if on == "write":
-            w.fail_write = exc or ConnectionResetError("broken pipe")
+            w.fail_write = exc
         else:
-            w.fail_drain = exc or ConnectionResetError("broken pipe")
+            w.fail_drain = exc
 
     def new_output(self, addr):
         """Chunks written to `addr` since the last call."""
